@@ -16,6 +16,30 @@ def fill(claim, na):
           "otherwise); installed numpy/uts/numba/math symbol tables; parameter annotations only used to report definite "
           "attribute errors; view/copy classification table of numpy operations.",
           "DESIGN.md 3/C20")
-    for pid in ["C01", "C02", "C04", "C05", "C06", "C07", "C08", "C09", "C10", "C11", "C12", "C13", "C14", "C15",
-                "C16", "C17", "C18", "C19"]:
+    claim("C11", "proof", "gated value numbering of the loop body (transfer function) + guard partition by finite sign enumeration + normal-form equality",
+          "For all inputs: one label per point, first label 0, label step in {0,1} (append guards partition every iteration; "
+          "appended value equals the carried label); the increment guard is exactly distance >= t (sign set {0,+}, ties "
+          "included); distance and carried state (anchor / running centroid / member window) equal the stated linkage "
+          "definition normalised by x_last - x_first, as exact rational-function identities.",
+          "Real-number reading of the centroid recurrence; x strictly increasing; the loop is the repo's single-pass for-loop "
+          "(any other shape fails closed); numpy/math vocabulary per kverif.npmodel.",
+          "DESIGN.md 3/C11")
+    claim("C16", "translation_validation", "abstraction of each function body to an exact rational normal form (gated value numbering) compared with reference formulas",
+          "Each metric (r2 classic/adjusted, rmse, rmsle, rmspe, rpd, residuals, smape) and each linear_fit wrapper is proved "
+          "equal to its textbook formula as a real rational-function identity with eps / R2-variant kept symbolic (a dropped "
+          "parameter is a mismatch); the endpoint fit is proved to interpolate both end points whenever x0 != xn; best-fit R2 is "
+          "corrcoef[0,1]^2 with the (n-1)/(n-2) correction.",
+          "Real-number reading (rounding outside the claim); numpy element-wise semantics per kverif.npmodel; @jit preserves "
+          "Python meaning; equal-length arrays. An equivalent reformulation the algebra cannot normalise is reported as "
+          "INCONCLUSIVE (exit 2), never as a pass.",
+          "DESIGN.md 3/C16")
+    claim("C17", "translation_validation", "normal-form equality against geometric definitions + symbol-substitution symmetry check + dependency-API link rule",
+          "shortest/perpendicular distance primitives, IoU, Menger curvature, distances, triangle area, similarity, rect are "
+          "proved equal to their geometric definitions as exact identities; Menger's normal form is invariant under all 6 "
+          "argument permutations; the sub-range variant measures exactly points[l:r+1]; rank is the argsort scatter; no "
+          "perpendicular primitive reaches numpy.cross on 2-vectors (rejected by the installed numpy).",
+          "Real-number reading; points are (x, y) rows; degenerate denominators not decided.",
+          "DESIGN.md 3/C17")
+    for pid in ["C01", "C02", "C04", "C05", "C06", "C07", "C08", "C09", "C10", "C12", "C13", "C14", "C15",
+                "C18", "C19"]:
         na(pid, PENDING)
